@@ -183,6 +183,10 @@ def run_property(prop, tier):
     replay_dir = os.path.join(VERIF, "replays", prop)
     all_names = []
     refuted = {}
+    if os.environ.get("PYVC_VERBOSE"):
+        for spec, res in sorted(zip(specs, results), key=lambda x: -(x[1].get("wall") or 0)):
+            print(f"  unit {res.get('unit')}: wall={res.get('wall', 0):.1f}s paths={res.get('paths')} "
+                  f"vcs={len(res.get('vcs', []))} solver={res.get('solver_time', 0):.1f}s queries={res.get('queries')}")
     for spec, res in zip(specs, results):
         if res.get("crash") or (res.get("error") and not res.get("vcs")):
             if res.get("crash") or res.get("native"):
